@@ -49,6 +49,8 @@ prop("C01", engine="eval", prefixes=["C01."], level="model_checking",
      quick=dict(traces=96, nops=25), thorough=dict(traces=2400, nops=40))
 prop("C02", engine="eval", prefixes=["C02."], level="model_checking",
      mc=("MxEval", "MC_MxEval_quick.cfg", "MC_MxEval_thorough.cfg"),
+     mbt_extra={"quick": ["MBT_MxEval_cee.cfg"], "thorough": ["MBT_MxEval_cee.cfg"]},
+     mbt_extra_limit={"quick": 2500, "thorough": 60000},
      jobs=lambda tier: [("edit", dict()), ("flags", dict())],
      quick=dict(traces=128, nops=30), thorough=dict(traces=3200, nops=45))
 prop("C05", engine="eval", prefixes=["C05."], level="model_checking",
@@ -67,6 +69,8 @@ prop("C08", engine="eval", prefixes=["C08."], level="model_checking",
      quick=dict(traces=96, nops=25), thorough=dict(traces=2400, nops=40))
 prop("C09", engine="eval", prefixes=["C09."], level="model_checking",
      mc=("MxEval", "MC_MxEval_quick.cfg", "MC_MxEval_thorough.cfg"),
+     mbt_extra={"quick": ["MBT_MxEval_cfe.cfg"], "thorough": ["MBT_MxEval_cfe.cfg", "MBT_MxEval_cee.cfg"]},
+     mbt_extra_limit={"quick": 2500, "thorough": 40000},
      jobs=lambda tier: [("flags", dict(gen=dict(p_uncached=0.5))),
                         ("edit", dict(gen=dict(p_uncached=0.5)))],
      quick=dict(traces=128, nops=30), thorough=dict(traces=3200, nops=45),
@@ -302,6 +306,16 @@ def run_mc(cfg, tier, seed):
         mbtcfg = "MBT_%s.cfg" % module
         rb = tlc.run_tlc(module, cfg=mbtcfg, env=env, workers=NCPU, timeout=3000)
         hists = [json.loads(tlc.tla_to_py(t)[1]) for t in tlc._match_tuples(rb["out"], "MBT")]
+        # one level deeper, restricted to the history shapes that matter for this property
+        extra = []
+        for xcfg in cfg.get("mbt_extra", {}).get(tier, []):
+            rx = tlc.run_tlc(module, cfg=xcfg, env=env, workers=NCPU, timeout=3000)
+            extra += [json.loads(tlc.tla_to_py(t)[1]) for t in tlc._match_tuples(rx["out"], "MBT")]
+        xlimit = cfg.get("mbt_extra_limit", {}).get(tier)
+        if xlimit and len(extra) > xlimit:
+            random.Random(seed + 1).shuffle(extra)
+            extra = extra[:xlimit]
+        hists += extra
         if tier == "thorough":
             # plus deeper random behaviours
             rs = tlc.run_tlc(module, cfg="MBT_%s_sim.cfg" % module, env=env, workers=1,
